@@ -279,3 +279,52 @@ Example C18_ex_store_profile :
   /\ layout_op_profile 1 None None (mkLayout None (l_extent l) None None None) = Ok (Some (mkLayout None (l_extent l) None None None),
           [1; 2; 2; 2; 1; 1; 1; 2; 2; 2; 2; 2; 2]).
 Proof. vm_compute. repeat split. Qed.
+
+(* ==== wave 7: to_xml_attribute / from_xml_attribute of Point, Stretch, Padding ====================================== *)
+From PV Require Import model.Positioning spec.SpecPos proofs.Pos12Facts proofs.GeomAttrFacts.
+
+(* TwoDimensionalObject.from_xml_attribute on "t1 t2 .. tk" (single spaces, tokens without spaces): exactly two tokens,
+   each parsed as a size; any other number of tokens is a ValueError *)
+Theorem C18_two_sizes_attribute : forall toks, toks <> [] -> Forall (free_of 32) toks ->
+  two_sizes (join [32] toks)
+  = match toks with
+    | [a; b] => do x <- size_from_string a; do y <- size_from_string b; Ok (x, y)
+    | _ => Err ValueError
+    end.
+Proof. exact two_sizes_tokens. Qed.
+Print Assumptions C18_two_sizes_attribute.
+
+(* "re-parsing a printed value reproduces it" for the composite values (non-negative lengths): the attribute printed by
+   to_xml_attribute is accepted by from_xml_attribute, every component comes back in its own slot as its two-decimal
+   rounding (so within 1/200: C18_print_stable), and printing the result gives the same attribute again *)
+Theorem C18_point_attribute_roundtrip : forall p, (0 <= s_val (p_x p))%Q -> (0 <= s_val (p_y p))%Q ->
+  exists p', point_of_attr (point_attr p) = Ok p'
+    /\ size_equiv (p_x p') (round2 (p_x p)) /\ size_equiv (p_y p') (round2 (p_y p))
+    /\ point_attr p' = point_attr p.
+Proof. exact point_attr_roundtrip. Qed.
+Print Assumptions C18_point_attribute_roundtrip.
+
+Theorem C18_stretch_attribute_roundtrip : forall p, (0 <= s_val (st_h p))%Q -> (0 <= s_val (st_v p))%Q ->
+  exists p', stretch_of_attr (stretch_attr p) = Ok p'
+    /\ size_equiv (st_h p') (round2 (st_h p)) /\ size_equiv (st_v p') (round2 (st_v p))
+    /\ stretch_attr p' = stretch_attr p.
+Proof. exact stretch_attr_roundtrip. Qed.
+Print Assumptions C18_stretch_attribute_roundtrip.
+
+(* Padding prints before, end, after, start; the four-value branch of the shorthand puts each one back where it was *)
+Theorem C18_padding_attribute_roundtrip : forall p, (0 <= s_val (pd_before p))%Q -> (0 <= s_val (pd_after p))%Q ->
+  (0 <= s_val (pd_start p))%Q -> (0 <= s_val (pd_end p))%Q ->
+  exists p', padding_from_attr (padding_attr p) = Ok p'
+    /\ size_equiv (pd_before p') (round2 (pd_before p)) /\ size_equiv (pd_after p') (round2 (pd_after p))
+    /\ size_equiv (pd_start p') (round2 (pd_start p)) /\ size_equiv (pd_end p') (round2 (pd_end p))
+    /\ padding_attr p' = padding_attr p.
+Proof. exact padding_attr_roundtrip. Qed.
+Print Assumptions C18_padding_attribute_roundtrip.
+
+Example C18_ex_attribute_roundtrip :
+  let p := {| pd_before := mkSize (2675 # 1000) PX; pd_after := mkSize (1 # 8) PCT; pd_start := mkSize (5 # 10) CELL; pd_end := mkSize (100 # 1) EM |} in
+  padding_attr p = lit "2.68px 100em 0.12% 0.5c"
+  /\ padding_from_attr (padding_attr p)
+     = Ok {| pd_before := mkSize (67 # 25) PX; pd_after := mkSize (3 # 25) PCT; pd_start := mkSize (1 # 2) CELL; pd_end := mkSize (100 # 1) EM |}
+  /\ two_sizes (lit "1px 2px 3px") = Err ValueError /\ two_sizes (lit "1px") = Err ValueError.
+Proof. vm_compute. repeat split. Qed.
